@@ -1,6 +1,7 @@
 import RattrDriver.JsonUtil
 import RattrModel.Naming
 import RattrModel.Spec.Spell
+import RattrModel.NamingSites
 
 namespace Rattr.Driver.C10
 open Lean Rattr Rattr.Driver Rattr.Naming
@@ -49,5 +50,11 @@ def handle (payload : Json) : R Json := do
     ("old_safe", outJson (oldNames true e)),
     ("old_unsafe", outJson (oldNames false e)),
     ("spec", Json.arr #[Json.str (String.ofList (Spec.base e)), Json.str (String.ofList (Spec.spell e))])]
+
+/-- op `naming_sites`: the consumer-site table of the model (`NamingSites.sites`). -/
+def handleSites (_ : Json) : R Json :=
+  return Json.mkObj [("sites", Json.arr (NamingSites.sites.map (fun (f, q, c, i, s, cov) =>
+    Json.mkObj [("file", Json.str f), ("func", Json.str q), ("callee", Json.str c), ("idx", Json.num i),
+                ("stmt", Json.str s), ("cover", Json.str cov)])).toArray)]
 
 end Rattr.Driver.C10
